@@ -76,7 +76,7 @@ def count_table(F):
                         continue
                     key = peel(ent["args"][0])
                     inc = peel(n["r"])
-                    k = inc.get("v") if inc.get("k") == "Lit" else "?"
+                    k = inc.get("v") if inc.get("k") == "Lit" and isinstance(inc.get("v"), int) else 10 ** 6  # not a literal: no count can match (fail closed)
                     if key.get("k") == "Path" and key.get("res") == "Local":
                         if key["hid"] in loops:
                             incs[loops[key["hid"]]] = incs.get(loops[key["hid"]], 0) + k
